@@ -17,6 +17,11 @@ pub fn gen_fixed(f: &Fixed, rng: &mut Rng) -> Vec<u8> {
         Fixed::Bool => vec![rng.below(2) as u8],
         Fixed::Cenum(k) => vec![rng.below(*k as u64) as u8],
         Fixed::Rec(fs) => fs.iter().flat_map(|f| gen_fixed(f, rng)).collect(),
+        Fixed::Podd(d) => match rng.below(4) {
+            0 => d.clone(),
+            1 => vec![0u8; d.len()],
+            _ => rng.bytes(d.len()),
+        },
     }
 }
 
@@ -204,7 +209,7 @@ pub struct Field {
 
 fn flags_of(f: &Fixed, base: usize, out: &mut Vec<Field>) {
     match f {
-        Fixed::Pod(_) => {}
+        Fixed::Pod(_) | Fixed::Podd(_) => {}
         Fixed::Bool | Fixed::Cenum(_) => out.push(Field { off: base, w: 1, kind: FieldKind::Flag }),
         Fixed::Rec(fs) => {
             let mut o = base;
